@@ -202,18 +202,39 @@ func (w *c12World) noteRedeliveries(id int, offOf func(n int) (Offset, bool)) {
 
 func (w *c12World) redeliveredBeforeSave(id, n int) bool { return false }
 
-func c12History(H int, faults bool) {
+func c12History(H int, faults bool, prefix bool) {
 	w := &c12World{ids: [2]string{"sub-a", "sub-b"}}
 	w.st = &c12Store{inner: NewMemoryStore(), failAt: -1, crashAt: -1, maxSaved: map[string]Offset{}, chunk: vInt(0, 1)}
+	failKind, faultPos := vBool(), 0
 	if faults {
-		if vBool() {
-			w.st.failAt = vInt(0, 6*H)
+		faultPos = vInt(0, 6*H)
+	}
+	arm := func() {
+		if !faults {
+			return
+		}
+		if failKind {
+			w.st.failAt = w.st.ops + faultPos
 		} else {
-			w.st.crashAt = vInt(0, 6*H)
+			w.st.crashAt = w.st.ops + faultPos
 		}
 	}
 	w.explicitSubStore = vBool()
 	w.restart()
+	if prefix {
+		// a subscription that has already made progress in an earlier run and is resumed on a fresh bus
+		np := vInt(1, 2)
+		for i := 0; i < np; i++ {
+			w.seq++
+			Publish(w.bus, evA{N: w.seq})
+		}
+		_ = w.subscribe(0)
+		w.restart()
+		if vBool() {
+			_ = w.subscribe(0)
+		}
+	}
+	arm()
 	// offsets of evA events by sequence number, as appended
 	offByN := map[int]Offset{}
 	// redelivery rule is checked at delivery time through savedAtDelivery
@@ -289,10 +310,13 @@ func c12History(H int, faults bool) {
 }
 
 //verif:entry property=C12 tier=both bounds="every history of H steps out of {publish subscribed type, the same with a handler that publishes a follow-up event of that type, publish other type, SubscribeWithReplay id A / id B (once per bus), restart} on the memory stores, no fault; drain restart at the end" cover="no-fault" H_quick=4 H_thorough=5
-func harnessC12NoFault() { c12History(vParam("H", 4), false) }
+func harnessC12NoFault() { c12History(vParam("H", 4), false, false) }
 
 //verif:entry property=C12 tier=both bounds="as above with ONE fault: failure of the f-th store operation (append/read/save/load) or a crash right after the c-th store operation" cover="with-fault" H_quick=3 H_thorough=5
-func harnessC12OneFault() { c12History(vParam("H", 3), true) }
+func harnessC12OneFault() { c12History(vParam("H", 3), true, false) }
+
+//verif:entry property=C12 tier=both bounds="a subscription that made progress in an earlier run (1-2 events published and replayed under id A, then a restart, id A optionally resumed on the new bus), followed by every history of H further steps as above with ONE fault (failing store operation or crash) placed anywhere in those steps" cover="with-fault" H_quick=2 H_thorough=3
+func harnessC12ResumedThenFault() { c12History(vParam("H", 2), true, true) }
 
 //verif:entry property=C12 tier=both bounds="a publisher goroutine (K events of the subscribed type) interleaved at every synchronisation point with a running SubscribeWithReplay over the memory stores, one event persisted beforehand; then a drain restart; every interleaving within the preemption bound" cover="interleaved" K_quick=2 K_thorough=2 preempt_quick=2 preempt_thorough=3 race=on
 func harnessC12ConcurrentPublisher() {
